@@ -241,26 +241,47 @@ class Port:
         old = (S.socket, S.time, S._TftpReadRequest)
         S.socket, S.time, S._TftpReadRequest = shim, types.SimpleNamespace(monotonic=lambda: clock[0]), Rec
         old_thr, old_str = S.threading, S.socket_address_to_str
-        if fault is not None:
-            class FaultThread(threading.Thread):
-                def start(self_t):
-                    port.fire(ST_THREAD, None)
-                    return super().start()
-            thr = types.SimpleNamespace(**{k: getattr(threading, k) for k in dir(threading) if not k.startswith("__")})
-            thr.Thread = FaultThread
-            S.threading = thr
+        started = []                                  # every thread the server code starts during this run
 
+        class FaultThread(threading.Thread):
+            def start(self_t):
+                port.fire(ST_THREAD, None)
+                started.append(self_t)
+                return super().start()
+        thr = types.SimpleNamespace(**{k: getattr(threading, k) for k in dir(threading) if not k.startswith("__")})
+        thr.Thread = FaultThread
+        S.threading = thr
+        patched_levels = []
+        if fault is not None:
             def addr_str(a):
                 port.fire(ST_LOG, None, 0)
                 return old_str(a)
             S.socket_address_to_str = addr_str
-            for lvl in ("debug", "info", "error"):
+            in_exception = [False]
+            # every logger method a branch could use for its log statement - whichever level it logs at is not
+            # fixed by the property; `exception` (what the catch-all itself needs) never raises
+            for lvl in ("debug", "info", "warning", "warn", "error", "critical", "fatal", "log"):
+                if not hasattr(S.logger, lvl):
+                    continue
+
                 def mk(real):
                     def method(*a, **k):
-                        port.fire(ST_LOG, None, 1)
+                        if not in_exception[0]:
+                            port.fire(ST_LOG, None, 1)
                         return real(*a, **k)
                     return method
                 setattr(S.logger, lvl, mk(getattr(S.logger, lvl)))
+                patched_levels.append(lvl)
+            real_exception = S.logger.exception
+
+            def exception(*a, **k):
+                in_exception[0] = True
+                try:
+                    return real_exception(*a, **k)
+                finally:
+                    in_exception[0] = False
+            S.logger.exception = exception
+            patched_levels.append("exception")
         escaped = None
         hang = False
         try:
@@ -268,13 +289,13 @@ class Port:
                 srv._run()
             except BaseException as ex:                 # nothing may escape the serve loop
                 escaped = type(ex).__name__
-            for r in self.created:
-                r._thread.join(20)
-                hang = hang or r._thread.is_alive()
+            for t in started:                      # not by a private attribute name of the request object
+                t.join(20)
+                hang = hang or t.is_alive()
         finally:
             S.socket, S.time, S._TftpReadRequest = old
             S.threading, S.socket_address_to_str = old_thr, old_str
-            for lvl in ("debug", "info", "error"):
+            for lvl in patched_levels:
                 S.logger.__dict__.pop(lvl, None)
             srv._shutdown_requested = False
             self.fault = self.armed = None
@@ -549,6 +570,12 @@ def evaluate(cases, ports, exclog):
             r = unsx(out)
             ms.append(r[0])
             covered.append(len(r) > 4 and r[4] == 1)
+            ft = case[3] if len(case) == 4 else None
+            if ft is not None and ft[1] == ST_LOG and ft[0] == len(ms) - 1 and not names(r[2]):
+                # a fault in a log statement: where and at which level a branch logs is not fixed by the property;
+                # the extracted checker has judged this datagram by the loose rule (loop alive, at most the
+                # specified reaction) and accepted it - the exact observation is not compared
+                ol[len(ms) - 1] = r[0]
             fm += [x for x in names(r[1]) if x not in fm]
             fi += [x for x in names(r[2]) if x not in fi]
         COVERED["within"] += sum(covered)
